@@ -252,6 +252,15 @@ func Check(root, id, tier string, seed uint64) (*Result, error) {
 				kinds[k] += v
 			}
 		}
+		// option values with punctuation: a package-qualified custom duration type, a target package with a dash
+		{
+			qp := QualifiedValuesProgram(corpus)
+			cs, ks := C16Cases(qp, seed+55, tier, 2)
+			cases = append(cases, cs...)
+			for k, v := range ks {
+				kinds[k] += v
+			}
+		}
 		cov["clauses"] = kinds
 		cov["rule"] = "programs = corpus + seeded random programs; fault-free: all-YAML reference vs all-CLI, both, each option alone on the CLI, seeded three-way splits with seeded entry order, per-option precedence (decoy in YAML, truth on CLI), for sort on and off; no-types variants; fault runs: every kernel error kind on the uninstrumented read, seam-injected EACCES/EIO at open/EIO after n bytes, unparsable content (syntax, verified by a schema-free YAML decode) and option-type mismatches. Non-trivial = every case (each differs from its reference in channel, order, or fault); distinct = distinct (clause, RunSpec, program) hashes"
 		assumptions = []string{"option names on each channel are the public interface at the pinned commit (README)",
